@@ -792,7 +792,10 @@ class DirectoryRecord:
         index = bisect.bisect_left(self.children, child)
         if index != len(self.children) and self.children[index].file_ident == child.file_ident:
             if not self.children[index].is_associated_file() and not child.is_associated_file():
-                if not (self.rock_ridge is not None and self.file_identifier() == b'RR_MOVED'):
+                # ISOs made by other tools can carry the same identifier more
+                # than once in the Rock Ridge relocation directory; that is
+                # accepted when parsing, but not for a new entry.
+                if check_overflow or not (self.rock_ridge is not None and self.file_identifier() == b'RR_MOVED'):
                     if not allow_duplicate:
                         raise pycdlibexception.PyCdlibInvalidInput('Failed adding duplicate name to parent')
 
